@@ -57,6 +57,13 @@ for _p, _t in {
     CLAIMS[_p]["text"] = CLAIMS[_p]["text"] + " " + _HS + _t
     CLAIMS[_p]["note"] = CLAIMS[_p]["note"] + " " + _HN
 _T = "bounded symbolic execution of the real code with z3 (jsym): solver-chosen schedules and inputs, exhaustive path exploration"
+_KQ = ("K-queue: the node-level loop - real JobQueue.run_jobs/submit/process_queue/_check_completions driving real AsyncCliCommand objects over a stubbed Popen for all "
+       "acyclic digraphs on 3 jobs (4 jobs: fan shapes quick, all DAGs thorough), every queue depth, cancel flags, which processes have exited at each poll and their exit "
+       "codes as z3 integers: every launch after all blockers have a recorded outcome, each job launched at most once, running processes <= depth, canceled <=> reference, queue drains. ")
+for _p in ("C01", "C02", "C06"):
+    CLAIMS[_p]["text"] += " " + _KQ
+CLAIMS["C05"]["text"] += (" H-submit/race: two concurrent batches whose nodes' submitter rounds are pre-empted after every release of the cluster lock, "
+                          "so that a node is refused promotion while another holds the role (366 of 775 histories) and the documented recovery is needed (247).")
 _KC = ("K-collect: real HpcSubmitter._update_completed_jobs/_cancel_job from every invariant-satisfying state of 3 (4) jobs with the round's "
        "collected results (which submitted jobs, finished or canceled on their node, exit code a z3 integer in [-255,255]) symbolic: canceled set = reference fix-point, "
        "newly-completed = collected + canceled, remaining blockers shrink exactly by the jobs whose outcome was recorded. ")
